@@ -15,6 +15,8 @@ ENTANGLE = ['numqi.entangle.ppt', 'numqi.entangle._misc', 'numqi.entangle.eof', 
 
 
 def c05(proj, rep, tier):
+    n = round3b.psd1(proj, rep, None)
+    rep.floor('PSD1 calls of is_positive_semi_definite', n, 2)
     n = numeric.t1(proj, rep, DECISION_C05)
     rep.floor('T1 decision comparisons + PSD shift sites (C05)', n, 10)
     n = numeric.t2(proj, rep, DECISION_C05)
@@ -273,6 +275,8 @@ def c02(proj, rep, tier):
 def c08(proj, rep, tier):
     n = pauli.e1(proj, rep)
     rep.floor('E1 literal table obligations', n, 22)
+    nn = round3b.fw2_rnd1_ord1(proj, rep, ['RND1'], ['numqi.gate'])
+    rep.floor('RND1 angles quantised to quarter turns', nn['RND1'], 1)
     n = pauli.e2(proj, rep)
     rep.floor('E2 phase-folding obligations', n, 6)
     n = pauli.e4(proj, rep)
@@ -434,6 +438,11 @@ def c03(proj, rep, tier):
     rep.floor('D6 sweeps over the gate list', nl, 5)
     rep.floor('NR1 apply_* primitives of the simulator', na, 5)
     rep.floor('PG1 functions of numqi.sim + numqi.gate scanned for angle wrapping', nf, 100)
+    round3b.fw2_rnd1_ord1(proj, rep, ['ORD1'], ['numqi.sim'])
+    n = round3b.sg1(proj, rep, ['numqi.sim.dm.apply_gate', 'numqi.sim.dm.operator_expectation', 'numqi.sim.state.apply_gate', 'numqi.sim.state.apply_control_n_gate'])
+    rep.floor('SG1 simulator kernels with a single formulation', n, 4)
+    n = round3b.tr1(proj, rep, ['numqi.sim'])
+    rep.floor('TR1 truthiness tests of optional arguments (simulator)', n, 1)
     n = ownership.pu1(proj, rep, ['numqi.sim.state', 'numqi.sim.dm'] if tier == 'quick' else sorted(proj.modules))
     rep.floor('PU1 simulator primitives with in-place stores', n, 3)
     n = typestate.h5(proj, rep, ['numqi.sim.circuit.Circuit'])
@@ -590,6 +599,9 @@ def c18(proj, rep, tier):
     rep.floor('F1 log sites in catalogue modules', n, 10)
     n = kdefects.rd1(proj, rep, None)
     rep.floor('RD1 return_dm constructors', n, 2)
+    nn = round3b.td1_dt14_drop1_rd2(proj, rep, ['TD1', 'DT14', 'RD2'])
+    rep.floor('TD1 trial-division sweeps of the package', nn['TD1'], 2)
+    rep.floor('RD2 return_dm constructors whose conversion is the last transformation', nn['RD2'], 2)
     nf, ns = masks.ms1(proj, rep, {k: v for k, v in MS1_FUNCS.items() if 'state._internal' in k})
     rep.floor('MS1 sites in the closed-form Werner / isotropic EOF', ns, 10)
     n = masks.ms2(proj, rep, [k for k in MS1_FUNCS if 'state._internal' in k])
@@ -634,6 +646,8 @@ def c20(proj, rep, tier):
     rep.floor('T3 thresholds checked against the precision class (C20)', n, 3)
     n = gellmann.g5(proj, rep)
     rep.floor('G5 (basis, complement) return pairs', n, 7)
+    nn = round3b.td1_dt14_drop1_rd2(proj, rep, ['DROP1'])
+    rep.floor('DROP1 accumulating loops of numqi.matrix_space', nn['DROP1'], 10)
     n = kdefects.nz1(proj, rep, ['numqi.matrix_space._misc', 'numqi.matrix_space._numerical_range', 'numqi.matrix_space._hierarchy'] if tier == 'quick' else sorted(proj.modules))
     n = kdefects.k5(proj, rep, ['numqi.matrix_space._numerical_range'])
     rep.floor('K5 eigsh calls in the numerical-range routines', n, 4)
@@ -779,6 +793,15 @@ def with_mc3(pid, f):
         # PU1 over the modules of the property (package-wide in the thorough tier); the properties that already run it keep their own floors
         scope = [q for q in sorted(proj.modules) if any(q == x or q.startswith(x + '.') for x in MC3_SCOPE[pid])] if tier == 'quick' else sorted(proj.modules)
         round3b.dtf1(proj, rep, MC3_SCOPE[pid] if tier == 'quick' else None)
+        nev = round3b.evh1(proj, rep, MC3_SCOPE[pid] if tier == 'quick' else None)
+        if tier != 'quick':
+            rep.floor('EVH1 transposes of eigh eigenvector matrices in the package', nev, 8)
+        nuv = round3b.uv1(proj, rep, MC3_SCOPE[pid] if tier == 'quick' else None)
+        if tier != 'quick':
+            rep.floor('UV1 local bindings of the package', nuv, 3500)
+        nn = round3b.fw2_rnd1_ord1(proj, rep, ['FW2'], MC3_SCOPE[pid] if tier == 'quick' else None)
+        if tier != 'quick':
+            rep.floor('FW2 same-named options of a numqi callee left at their default', nn['FW2'], 8)
         nfl, ndec = flatten.fl1(proj, rep, MC3_SCOPE[pid] if tier == 'quick' else None)
         if tier != 'quick':
             rep.floor('FL1 reshape / contraction sites typed in the package', ndec, 15)
